@@ -110,6 +110,17 @@ func c12Scenario(sp c12Spec, jsr, serve bool, bound int) e3Scenario {
 				}
 				return []e3Issue{{"oracle:not-linearizable", "no registration state that existed during the request explains its response: " + strings.Join(hs, "; ")}}
 			}
+			for _, o := range ops {
+				in := o.Input.(c12In)
+				if in.Mut {
+					continue
+				}
+				for _, u := range sp.untouched {
+					if u == in.Idx && o.Output.(string) != expected("", u) {
+						return []e3Issue{{"oracle:untouched", fmt.Sprintf("%s addresses a service and route that no mutation changes; it is answered %s, without any change it is answered %s", w.reqs[u].Path(), o.Output, expected("", u))}}
+					}
+				}
+			}
 			return nil
 		}
 		inst.Outcome = func() string {
@@ -154,6 +165,6 @@ func c12Scenarios(tier string) []e3Scenario {
 func checkC12(run *h.Run) {
 	e3RunAll(run, nil)
 	run.Cov["distinct_nontrivial"] = run.Cov["schedules"]
-	run.Cov["rule"] = "E3: all schedules of serving threads against mutating threads (Add, Remove, Route, RemoveRoute, and a condition function that panics while the container lock is held) on the real instrumented package, both routers x both entry points, iterative preemption bounding (quick: 2 threads bound 4, two concurrent mutators + a server bound 2; thorough: 2 threads bound 10, 3 threads bound 4). Oracles on every execution: vector-clock happens-before race detection over every struct field and package variable access of the package, no panic, no deadlock, and linearizability (porcupine) of the call/return history against the real container replayed sequentially (status, route, Allow set)."
+	run.Cov["rule"] = "E3: all schedules of serving threads against mutating threads (Add, Remove, Route, RemoveRoute, and a condition function that panics while the container lock is held) on the real instrumented package, both routers x both entry points, iterative preemption bounding (quick: 2 threads bound 4, two concurrent mutators + a server bound 2; thorough: 2 threads bound 10, 3 threads bound 4). Oracles on every execution: vector-clock happens-before race detection over every struct field and package variable access of the package, no panic, no deadlock, and linearizability (porcupine) of the call/return history against the real container replayed sequentially (status, route, Allow set), and requests to services and routes no mutation touches are answered as on the initial container."
 	run.Assume = []string{"sequential consistency at synchronisation granularity; races are reported as violations outright", "field-granular race detection (element-level accesses are covered by the free-running -race pass only)", "net/http.ServeMux internals executed, not instrumented"}
 }
